@@ -33,6 +33,7 @@ def run(ctx):
         has_move = None
         lt100 = None
         in_check = None
+        clock_conds = []
         for c in p.conds:
             e = L.lift(c[0])
             v = c[1]
@@ -50,9 +51,8 @@ def run(ctx):
                           "has-move is not computed as generate_moves(|_| true) over all pieces", loc(body))
                 has_move = bool(v)
                 continue
-            kind, val = classify_clock(e, v, clock)
-            if kind == "lt100":
-                lt100 = val
+            if e[0] == "bin" and (e[2] == clock or e[3] == clock) and (e[2][0] == "int" or e[3][0] == "int"):
+                clock_conds.append((e, v))
                 continue
             kind, val = classify_check(e, v)
             if kind == "in_check":
@@ -60,6 +60,19 @@ def run(ctx):
                 continue
             ctx.fail("status:unknown-atom", "status() branches on something that is not has-move, the half-move clock vs 100, or the checker set: %s"
                      % sym.show(e)[:160], loc(body))
+        if clock_conds:
+            # what the comparisons leave of 0..=255: below 100, from 100 up, or undecided
+            from ..ranges import Ranger
+            rg = Ranger(f, {clock: "u8"})
+            bd = rg.bounds(clock, clock_conds)
+            if bd is not None and bd[0] > bd[1]:
+                continue            # no u8 value satisfies the comparisons: not a path
+            if bd is not None and bd[1] <= 99:
+                lt100 = True
+            elif bd is not None and bd[0] >= 100:
+                lt100 = False
+            else:
+                ctx.fail("status:clock-threshold", "status() compares the half-move clock with something other than the 100 threshold (values left: %s)" % (bd,), loc(body))
         rows[(has_move, lt100, in_check)] = p.ret[2]
     # expand don't-cares and compare with the specification
     bad = []
